@@ -557,11 +557,22 @@ def _pid_alive(pid):
 
 
 def _kill_pid(pid):
-    if pid:
-        try:
-            os.kill(pid, signal.SIGKILL)
-        except OSError:
-            pass
+    """SIGKILL a child of THIS harness.  Process ids are recycled within minutes when several checks run side by side
+    (pid_max is 32768): the target must carry this harness' plan file in its environment, or nothing is sent."""
+    if not pid or pid == os.getpid():
+        return
+    mine = os.environ.get('PYWORKERS_VERIF_PLAN')
+    try:
+        with open('/proc/%d/environ' % pid, 'rb') as f:
+            env = f.read().split(b'\0')
+    except OSError:
+        return
+    if mine and ('PYWORKERS_VERIF_PLAN=' + mine).encode() not in env:
+        return
+    try:
+        os.kill(pid, signal.SIGKILL)
+    except OSError:
+        pass
 
 
 def _marks(mpath):
